@@ -368,6 +368,18 @@ def c17(tier):
     wd = vlib.workdir("C17", tier)
     vlib.build_harness()
     mc_writer(rep, wd, "quick")
+    if tier == "thorough":
+        # the padding law for unbounded offsets and every alignment (Apalache/SMT); the law without the record header must be refuted
+        ok, tail = apalache("AlignProof.tla", ["--init=AnyInit", "--inv=Aligned", "--length=0"], wd, "alignproof")
+        if not ok:
+            log(tail)
+            raise ToolTrouble("Apalache did not discharge AlignProof!Aligned")
+        bad, tail = apalache("AlignProof.tla", ["--init=AnyInit", "--inv=WrongLaw", "--length=0"], wd, "alignproof-neg")
+        if bad or "Checker has found an error" not in tail:
+            log(tail)
+            raise ToolTrouble("Apalache did not refute AlignProof!WrongLaw")
+        rep.neg_controls.append({"spec_mutant": "AlignProof!WrongLaw (padding without the 4-byte record header)", "expected_violation": "WrongLaw", "found": True})
+        rep.notes["apalache_obligations"] = {"obligations": 1, "discharged": 1, "spec": "AlignProof.tla (Aligned: for every data start in Nat and alignment in 2..65535 the required padding record aligns the data start)"}
     sd = vlib.seed()
     g = gen_writer.Gen(sd * 32452843 + 17, tier)
     if tier == "quick":
